@@ -30,6 +30,8 @@ structure Exact (g : Glyph) : Prop where
 def Glyph.Settled (g : Glyph) : Prop :=
   g.cur = none ∧ g.stC = [] ∧ g.stK = [] ∧ g.stA = [] ∧ g.stG = []
 
+instance (g : Glyph) : Decidable g.Settled := by unfold Glyph.Settled; infer_instance
+
 /-! #### counting form of the invariant (what the proofs use) -/
 
 /-- how often `x` occurs in an optional identifier -/
